@@ -1091,6 +1091,7 @@ def post(role, f, env, d0, d, rv, handles):
 #  R-C08-2: the counter
 # ============================================================================================
 from rkstatic.x_atomics import init_exprs  # noqa: E402
+from rkstatic.x_atomics import free_atoms  # noqa: E402
 from rkstatic.x_atomics import (ATOMIC_INT, PLAIN_INT, WIDTH64, atomic_call, call_mo, cfg_paths, cfg_paths_unrolled, fence_mo,
                                 int_eval, loop_blocks)  # noqa: E402
 
@@ -1130,6 +1131,15 @@ def check_counter(ctx, tu):
                     fields_of(cf, depth + 1)
     fields_of(finc)
     cands = [fd for fd in rec['fields'] if fd['id'] in refd]
+    if len(cands) > 1:
+        # several members are mentioned (e.g. an owner-thread id next to the count): the counter is the one of integral / atomic
+        # integral type, or a class wrapping such a member
+        def countish(fd):
+            if ATOMIC_INT.match(fd['ct']) or PLAIN_INT.match(fd['ct'].replace('volatile ', '')):
+                return True
+            wrec_ = tu.records_by_type.get(fd['ct'].replace('const ', '').strip())
+            return wrec_ is not None and len(wrec_.get('fields', [])) == 1 and bool(ATOMIC_INT.match(wrec_['fields'][0]['ct']))
+        cands = [fd for fd in cands if countish(fd) and not fd['ct'].startswith('const ')] or cands
     if len(cands) != 1:
         ctx.undecided(R2, 'RefCountedObject', 'refInc does not refer to exactly one data member of RefCountedObject (%d): '
                       'cannot identify the counter' % len(cands), tu.fn_loc(finc))
@@ -1418,6 +1428,7 @@ def check_rmw_fn(ctx, tu, f, counter_ids, sign, file, followed=None):
     undec = []
     per_new = {v: [] for v in range(0, 4)}   # new value -> list of (deleted?) over feasible paths
     parked = {}        # new value -> node where `this` is handed to somebody else on a path that returns without destroying
+    extra_cond = {}    # new value -> condition that (besides the RMW result) decides whether the object is destroyed
     for path in paths:
         rmw = []
         deletes = []
@@ -1432,6 +1443,7 @@ def check_rmw_fn(ctx, tu, f, counter_ids, sign, file, followed=None):
         cond_seen_before_rmw = False
         binds = []        # (call node id of a followed helper, its return expression on this path)
         kconsts = {}      # integral parameters of followed helpers bound to constant arguments (adjust(-1))
+        free_conds = []   # conditions on this path whose outcome also depends on something other than the RMW result
         for item in path:
             if item[0] == 'B':
                 binds.append((item[1], item[2]))
@@ -1569,8 +1581,23 @@ def check_rmw_fn(ctx, tu, f, counter_ids, sign, file, followed=None):
                                 env[cid] = v
                         v = int_eval(tu, c, env)
                         if v is None:
-                            known = False
-                            break
+                            # parts of the condition that do not come from the RMW (a flag member, a call): either value is possible
+                            atoms = free_atoms(tu, c, env)
+                            poss = set()
+                            if atoms and len(atoms) <= 3:
+                                import itertools
+                                for vals_ in itertools.product((0, 1), repeat=len(atoms)):
+                                    e2 = dict(env)
+                                    e2.update({a_['id']: v_ for a_, v_ in zip(atoms, vals_)})
+                                    poss.add(int_eval(tu, c, e2))
+                            if not poss or None in poss:
+                                known = False
+                                break
+                            if (taken == 0) in {bool(p_) for p_ in poss}:
+                                ok_vals.add(new)
+                                if len({bool(p_) for p_ in poss}) > 1:
+                                    free_conds.append(tu.show(c))
+                            continue
                         if bool(v) == (taken == 0):
                             ok_vals.add(new)
                     bound = [cid for cid, r_ in binds]
@@ -1635,6 +1662,8 @@ def check_rmw_fn(ctx, tu, f, counter_ids, sign, file, followed=None):
             continue
         for new in feas:
             per_new[new].append(bool(deletes))
+            if not deletes and free_conds and new == 0 and len(undec) == und0:
+                extra_cond.setdefault(0, free_conds[0])
             if not deletes and parks and len(undec) == und0:
                 parked.setdefault(new, parks[0])
     if sign < 0 and not problems and undec and 0 in parked:
@@ -1654,6 +1683,11 @@ def check_rmw_fn(ctx, tu, f, counter_ids, sign, file, followed=None):
                                  '`%s` and returns without destroying the object: the destruction is deferred past the return of the operation '
                                  'that released the last reference (the object outlives its last reference; whoever drains that storage '
                                  'destroys it later)' % tu.show(pn), tu.loc(pn)))
+            elif new == 0 and not all(ds) and 0 in extra_cond:
+                problems.append(('conditional-destroy', 'when the decrement produces 0 (last reference released) the destruction additionally '
+                                 'depends on `%s`: on the path where that part is false the object outlives its last reference and is never '
+                                 'destroyed by the release (the property requires the operation that releases the last reference to destroy '
+                                 'the object, whatever other state says)' % extra_cond[0], tu.fn_loc(f)))
             elif new == 0 and not all(ds):
                 problems.append(('delete-condition', 'when the decrement produces 0 (last reference released) a path does not destroy the '
                                  'object: it leaks / the condition tests the wrong value of the RMW', tu.fn_loc(f)))
